@@ -17,7 +17,7 @@ EXTRA_FLAGS = {"@poison": ["-DVQ_POISON"],
 MODEL = "own"
 ASSUMPTIONS = [
     "prior heap contents are modelled by a poisoning operator new (fills 00 / FF / AA / pseudo-random); stack contents and allocator addresses are not varied",
-    "memory safety is checked by AddressSanitizer/UndefinedBehaviourSanitizer runs of the harness on the generated and the listed degenerate inputs (a test, reported as such); the Coq theorems cover junk-independence of the modelled kernels, the bounds-checked re-statement of spmv/transpose (coq/LowLevel.v) and the crs::own_data state machine (coq/Own.v) only",
+    "memory safety is checked by AddressSanitizer/UndefinedBehaviourSanitizer runs of the harness on the generated and the listed degenerate inputs (a test, reported as such); the Coq theorems cover junk-independence of the modelled kernels, the bounds-checked re-statements of spmv/residual/CRS construction/transpose (coq/LowLevel.v, coq/LowLevelT.v) and the crs::own_data state machine (coq/Own.v) only",
     "crs::own_data (C10-A3): ptr/col/val are modelled as one block unit (set_nonzeros(n, need_values=false), which leaves val null, is outside the model); the tracking allocator of harness/drv_own.cpp sees operator new[]/delete[] only; object lifetimes are those of the driver's std::map<int, shared_ptr<crs>>",
 ]
 RULE = "crs::own_data: op sequences (construct / zero_copy view / copy / move / copy-assign / move-assign / destroy, ids 0..4) on amgcl::backend::crs<double> under a tracking allocator and under ASan+LSan vs the extracted Own.step; non-trivial = the sequence contains an effective copy/move between two objects.  amg hierarchies (4 coarsenings x 5 relaxations) on generated SPD/non-symmetric systems and a fixed list of degenerate inputs (1x1, diagonal, disconnected, positive off-diagonals, n <= coarse_enough, max_levels = 1), each run under several heap fill patterns (double and exact builds) and under ASan+UBSan; non-trivial = non-zero output"
